@@ -228,10 +228,10 @@ func genInc(t *rapid.T, o incOpts) Inc {
 func genCase(t *rapid.T) Case {
 	var c Case
 	c.Class = rapid.SampledFrom([]string{"single", "single", "single", "single", "single", "republish", "republish", "republish", "republish", "race"}).Draw(t, "class")
-	if c.Class == "race" && !pbt.Thorough() && rapid.IntRange(0, 4).Draw(t, "raceInQuick") != 0 {
+	if c.Class == "race" && !pbt.Thorough() && rapid.IntRange(0, 2).Draw(t, "raceInQuick") != 0 {
 		c.Class = "republish" // real waits are rare in the quick tier
 	}
-	c.FragMs = rapid.OneOf(rapid.SampledFrom([]int{100, 100, 200, 500, 1000, 2000, 3000}), rapid.IntRange(100, 3000)).Draw(t, "fragMs")
+	c.FragMs = rapid.OneOf(rapid.SampledFrom([]int{1000, 100, 500, 200, 3000, 2000, 100}), rapid.IntRange(100, 3000)).Draw(t, "fragMs")
 	c.FragNum = rapid.IntRange(1, 6).Draw(t, "fragNum")
 	c.DelThr = rapid.IntRange(0, 4).Draw(t, "delThr")
 	c.Cleanup = rapid.IntRange(0, 2).Draw(t, "cleanup")
@@ -247,7 +247,7 @@ func genCase(t *rapid.T) Case {
 		n := rapid.SampledFrom([]int{2, 2, 2, 3}).Draw(t, "nincs")
 		for i := 0; i < n; i++ {
 			o := incOpts{fragMs: c.FragMs, maxFrames: maxFrames / n * 2, serial: uint32(i+1) * 100000}
-			if i < n-1 && rapid.IntRange(0, 3).Draw(t, "shortPredecessor") != 0 {
+			if i < n-1 && rapid.IntRange(0, 7).Draw(t, "shortPredecessor") != 0 {
 				// a predecessor that cannot advance the media sequence: at most fragment_num key frames
 				o.short, o.maxKeys = true, c.FragNum
 			}
@@ -260,11 +260,18 @@ func genCase(t *rapid.T) Case {
 		c.FragNum = rapid.IntRange(1, 2).Draw(t, "raceFragNum")
 		c.DelThr = rapid.IntRange(0, 1).Draw(t, "raceDelThr")
 		c.Cleanup = rapid.IntRange(1, 2).Draw(t, "raceCleanup")
+		kind := rapid.SampledFrom([]string{"during", "before", "after", "during"}).Draw(t, "raceKind")
 		for i := 0; i < 2; i++ {
-			c.Incs = append(c.Incs, genInc(t, incOpts{fragMs: c.FragMs, maxFrames: 60, serial: uint32(i+1) * 100000}))
+			o := incOpts{fragMs: c.FragMs, maxFrames: 60, serial: uint32(i+1) * 100000}
+			if i == 0 && kind != "before" {
+				// the playlist survives until the successor starts: keep the predecessor from advancing the
+				// media sequence (known finding), the cleanup is scheduled by its leave in any case
+				o.short, o.maxKeys = true, c.FragNum
+			}
+			c.Incs = append(c.Incs, genInc(t, o))
 		}
 		wait := c.cleanupDelayMs() + 150
-		switch rapid.SampledFrom([]string{"before", "during", "during", "after"}).Draw(t, "raceKind") {
+		switch kind {
 		case "before":
 			c.GapMs = []int{wait}
 		case "during":
